@@ -966,6 +966,7 @@ package flags
 //@   loop 1 invariant ret != nil && reader != nil && !isnil(ret.Sections) && ret.File == filename
 //@   loop 1 invariant lineno == (ncalls(readFullLine) - nfails(readFullLine)) - l0
 //@   loop 1 invariant exists(k, 0, len(ret.order), ret.order[k] == sectionname)
+//@   loop 1 invariant forall(n, string, indom(ret.Sections, n) ==> exists(k, 0, len(ret.order), ret.order[k] == n))
 //@   loop 1 invariant ncalls(bufio.Reader.ReadLine) <= readBound(reader)
 //@   loop 1 decreases readBound(reader) - ncalls(bufio.Reader.ReadLine)
 //@   ensures[C14] err == nil ==> r != nil && !isnil(r.Sections) && r.File == filename
